@@ -260,9 +260,8 @@ fn main() {
             for &api in Api::all_for(d.format) {
                 for &w in &wraps {
                     let (log, env) = run_reader(d, api, w, ReadMode::Full, None);
-                    if let Some(diff) = compare(&spec[&(i, api)], &log) {
-                        vmc::machinery(format!("full-transfer run differs from the plain slice for {} {api:?} {w:?}: {diff:?}", d.name));
-                    }
+                    // a difference here is a capacity dependence; it is reported by the `uniform` harness (mode full)
+                    let _ = log;
                     combos.push(Combo { doc: i, api, wrap: w, sizes: env });
                 }
             }
@@ -362,6 +361,7 @@ fn main() {
         {
             let (docs, combos, spec) = (&docs, &combos, &spec);
             let modes = [
+                (ReadMode::Full, "full-transfers"),
                 (ReadMode::OneByte, "one-byte"),
                 (ReadMode::InterruptEvery, "interrupt-every"),
                 (ReadMode::Irregular, "irregular"),
